@@ -9,7 +9,7 @@ for d in seeded/*/; do
   checks=$(python3 -c "import json;print(' '.join(c for c in json.load(open('$d/meta.json'))['caught_by'] if '(' not in c))")
   out=""
   for c in $checks; do
-    r=$(SMOOTHMATH_REPO=$WT ./check $c --tier quick 2>&1 | grep -E "^(OK|VIOLATION|INFRA)" | head -1 | awk '{print $1}')
+    r=$(VERIF_EVIDENCE_DIR=/tmp/seeded_evidence SMOOTHMATH_REPO=$WT ./check $c --tier quick 2>&1 | grep -E "^(OK|VIOLATION|INFRA)" | head -1 | awk '{print $1}')
     out="$out $c:$r"
   done
   echo "$n:$out"
